@@ -1,0 +1,14 @@
+//go:build !verif
+
+// Package verifhook provides named schedule points for runtime verification.
+// Without the "verif" build tag every function is an empty, inlinable no-op.
+package verifhook
+
+// Point marks a named schedule point. No-op unless built with -tags verif.
+func Point(name string) {}
+
+// PointArg is Point with an attached value. No-op unless built with -tags verif.
+func PointArg(name string, arg any) {}
+
+// Enabled reports whether hooks are compiled in.
+const Enabled = false
